@@ -1,0 +1,27 @@
+//go:build verif
+
+package base
+
+import (
+	"fmt"
+
+	"seata.apache.org/seata-go/pkg/datasource/sql/undo"
+)
+
+// DecodeForVerif performs, in the same order, the three steps Undo applies to an undo_log row
+// before executing it: decode the context column, undo the compression named there, and
+// deserialize the branch undo log with the serializer named there.
+func (m *BaseUndoLogManager) DecodeForVerif(context, rollbackInfo []byte) (*undo.BranchUndoLog, error) {
+	var logCtx map[string]string
+	if context != nil && string(context) != "" {
+		logCtx = m.decodeUndoLogCtx(context)
+	}
+	if logCtx == nil {
+		return nil, fmt.Errorf("undo log context not exist")
+	}
+	info, err := m.getRollbackInfo(rollbackInfo, logCtx)
+	if err != nil {
+		return nil, err
+	}
+	return m.deserializeBranchUndoLog(info, logCtx)
+}
